@@ -73,6 +73,11 @@ func (c *ColInterval) Infer(t ColumnType) error {
 	if err != nil {
 		return errors.Wrap(err, "scale")
 	}
+	if scale.String() != t.String() {
+		// IntervalScaleString ignores case, but Type() reports the canonical
+		// name, which would conflict with t.
+		return errors.Errorf("scale: %q is not %q", t, scale)
+	}
 	c.Scale = scale
 	return nil
 }
